@@ -23,8 +23,8 @@ Lemma check_bb_ext : forall b inputs,
   check_bb g LB asg glob d m b inputs = check_bb g LB asg glob d' m' b inputs.
 Proof.
   intros. unfold check_bb.
-  rewrite (first_some_ext _ _ (fun x => if d x || glob x then None else Some (NotDefined 0 x))
-                          (fun x => if d' x || glob x then None else Some (NotDefined 0 x))).
+  rewrite (first_some_ext _ _ (fun x => if negb (d x) && (memb x asg || negb (glob x)) then Some (NotDefined 0 x) else None)
+                          (fun x => if negb (d' x) && (memb x asg || negb (glob x)) then Some (NotDefined 0 x) else None)).
   2:{ intros a. rewrite Hd. reflexivity. }
   destruct (if b =? 0 then _ else None); auto.
   rewrite (first_some_ext _ _ _ (fun s => first_some (check_var g asg glob m' (x_defs (xblk g b) ++ inputs)) (getd LB s))).
